@@ -254,7 +254,17 @@ func (ti *TypeInfo) Tag(t types.Type) int {
 	if n, ok := ti.tagOf[k]; ok {
 		return n
 	}
-	n := len(ti.tagOf) + 1
+	// stable across runs and independent of the order of first use (keeps generated obligations byte-identical)
+	n := int(fnv(k)%1000000) + 1
+	for used := true; used; {
+		used = false
+		for _, v := range ti.tagOf {
+			if v == n {
+				n++
+				used = true
+			}
+		}
+	}
 	ti.tagOf[k] = n
 	ti.tagTypes = append(ti.tagTypes, t)
 	return n
